@@ -101,7 +101,7 @@ def main():
                 return r[:80]
             verdict = {"0": "**missed** (exit 0)", "1": "violation", "2": "undecided (exit 2)", "3": "checker fault (exit 3)"}[mm.group(2)]
             return f"{mm.group(1)}: {verdict}" + (f", {mm.group(3)} obligations, first `{mm.group(4)[:90]}`" if mm.group(2) == "1" else "")
-        own = short(res[0]) if res else m.get("caught_by", "")[:120]
+        own = short(res[0]) if res else (m.get("not_detectable", "") or m.get("caught_by", ""))[:160]
         others = "; ".join(short(r) for r in res[1:]) if len(res) > 1 else "-"
         def esc(x):
             return str(x).replace("|", "\\|")
